@@ -5,6 +5,14 @@ ROOT = os.path.dirname(os.path.dirname(os.path.abspath(__file__)))
 
 # id -> (technique, level text, level note, design ref)
 CHECKS = {
+ "C02": ("exhaustive input-space sweep (all token strings up to a length bound + structured compositions) against an RFC 3986 Appendix B splitting model",
+         "Every string of up to 7 (quick) / 8 (thorough) tokens over the seven bytes the scanners branch on plus class representatives, filtered by the reference DFA, and a structured product scheme x authority x path x query x fragment (IPv6, multi-byte text at every boundary); each through accessors, parts(), borrowed, owned, reference and non-reference types; every returned component re-validated by the library and by the reference DFA; recomposition must reproduce the text. Exhaustive inside the bound.",
+         "Trusted: the 60-line Appendix-B splitting model, the reference DFAs from /verif/spec. Data independence of the scanners w.r.t. bytes outside ': / ? # @ [ ]' is re-checked with decoy bytes in thorough, not proved.",
+         "DESIGN.md section 6, C02"),
+ "C03": ("exhaustive input-space sweep (all authority token strings up to a length bound + user-info x host-kind x port product, stand-alone and embedded) against an RFC 3986 section 3.2 splitting model",
+         "Every string of up to 7 (quick) / 8 (thorough) tokens over {a 1 : @ [ ] . %41 v (e-acute)} accepted by the reference authority DFA (this contains every IPv6/IPvFuture shape of that length combined with every user-info/port shape) plus the product of named user-info, host and port values, each stand-alone and embedded in three kinds of reference. Exhaustive inside the bound.",
+         "Trusted: the 30-line authority splitting model and the reference DFAs. Hosts longer than the token bound are represented by the named product only.",
+         "DESIGN.md section 6, C03"),
  "C12": ("exhaustive input-space sweep (all paths up to a segment bound x all next/next_back interleavings) against a '/'-split list model",
          "Every path text over a structural segment alphabet up to 6 (quick) / 8 (thorough) segments, both families, with every path query and every interleaving of front/back iteration two steps past exhaustion, compared with a list model derived from the text. Exhaustive inside the bound; the scanners branch only on '/', so the bound covers every code path several times over.",
          "Trusted: the '/'-split list model (20 lines), the reference path DFA from /verif/spec deciding domain membership, rustc. Not covered: paths with more segments than the bound (except that iteration code has no length-dependent branch).",
